@@ -26,7 +26,8 @@ GETTERS = ["get_conventional_system", "get_primitive_system", "get_wyckoff_lette
 
 
 # a history: any sequence of getter calls (repeats allowed); getters not mentioned are fetched afterwards in canonical order
-_orders = st.lists(st.integers(0, len(GETTERS) - 1), min_size=1, max_size=14)
+# index len(GETTERS) stands for set_system(<the other crystal>): the analyser object is re-used for another structure
+_orders = st.lists(st.integers(0, len(GETTERS)), min_size=1, max_size=14)
 
 
 @gx.functools.lru_cache(maxsize=None)
@@ -47,7 +48,7 @@ def items(tier):
 
 def item_strategy(item, tier):
     return st.fixed_dictionaries({"crystal": sc.pattern_strategy(item).map(lambda d: d["crystal"]), "pres": gx.presentations(),
-                                  "order": _orders})
+                                  "order": _orders, "other": gx.crystal_descs()})
 
 
 @st.composite
@@ -55,7 +56,7 @@ def _cases(draw):
     c = draw(st.sampled_from(["A", "R", "F", "C", "I", "P"]))
     sgs = groups_by_centring()[c]
     return {"crystal": draw(gx.crystal_descs(sgs=sgs)), "pres": draw(gx.presentations()),
-            "order": draw(_orders)}
+            "order": draw(_orders), "other": draw(gx.crystal_descs())}
 
 
 def strategy(tier):
@@ -93,12 +94,37 @@ def run_case(desc):
     # history: call the cached getters in the drawn order on one analyser ...
     an = SymmetryAnalyzer(at, symmetry_tol=sc.TOL)
     got = {}
-    hist = list(desc["order"]) + [i for i in range(len(GETTERS)) if i not in desc["order"]]
-    names = [GETTERS[j] for j in hist]
+    SET = len(GETTERS)
+    order = list(desc["order"])
+    # the other crystal (for set_system events); if it cannot be built the events are dropped
+    other_at = None
+    if SET in order and desc.get("other") is not None:
+        oc, of, on, ost = gx.conditioned(desc["other"])
+        if ost == "ok" and gx.well_conditioned(oc, of @ oc, on) is not None:
+            other_at = gx.make_atoms(oc, of @ oc, on)
+    if other_at is None:
+        order = [i for i in order if i != SET]
+    # the history must end on the crystal under test: an odd number of switches gets one more
+    if order.count(SET) % 2 == 1:
+        order.append(SET)
+    cur = [at, other_at]
+    hist = order + ([i for i in range(len(GETTERS)) if i not in order] if SET not in order else list(range(len(GETTERS))))
+    names = ["set_system" if j == SET else GETTERS[j] for j in hist]
+    if SET in order:
+        out.cls("history:set_system")
     for pos, i in enumerate(hist):
+        if i == SET:
+            cur.reverse()
+            ok, v = call(an.set_system, cur[0])
+            if not ok:
+                return out.fail("returns-normally", "set_system (call %d of history %s): %r" % (pos, names, v), key="exc:set_system:" + exc_key(v))
+            got = {}
+            continue
         name = GETTERS[i]
         ok, v = call(_fetch, an, name)
         if not ok:
+            if cur[0] is not at:
+                continue      # failures on the auxiliary crystal are not this case's business
             return out.fail("returns-normally", "%s (call %d of history %s): %r" % (name, pos, names, v), key="exc:%s:%s" % (name, exc_key(v)))
         if name in got and _norm(name, v) != _norm(name, got[name]):
             out.fail("getter-repeatable", "%s returns something else on a repeated call (history %s)" % (name, names), key="repeat:" + name)
